@@ -11,30 +11,47 @@ SOURCES = ["src/allmydata/storage/immutable.py", "src/allmydata/storage/server.p
            "src/allmydata/storage/common.py", "src/allmydata/storage/immutable_schema.py"]
 DESIGN_REF = "DESIGN.md §2 C22"
 TECHNIQUE = ("Lean 4 theorems over an executable model of ShareFile / BucketWriter / BucketReader / allocate_buckets / "
-             "get_buckets (refinement to a map (SI,shnum) -> write-once byte array with an in-progress flag); differential "
-             "correspondence of seeded operation histories against a real StorageServer in a temp dir, comparing every result, "
-             "the internal written-range list and the raw container bytes on disk")
-LEVEL_TEXT = ("Visibility, read-back, conflict rejection, abort/timeout cleanup and the refinement to the write-once spec are "
-              "proved in Lean for all histories over any number of (SI, shnum); the model is tied to the code by comparing "
-              "results, _already_written ranges and on-disk container bytes of seeded histories.")
+             "get_buckets, the Foolscap front end (per-writer disconnect watchers), the HTTP PATCH close-on-finished rule, "
+             "server restart and the incoming/final directory tree, with a refinement to a map (SI,shnum) -> write-once byte "
+             "array with an in-progress flag; differential correspondence of seeded operation histories against a real "
+             "StorageServer / FoolscapStorageServer in a temp dir, comparing every result, the internal written-range list, "
+             "the raw container bytes on disk and the directory tree after every operation")
+LEVEL_TEXT = ("Proved in Lean for all histories (direct calls, Foolscap allocations on connections, connection losses, restarts) "
+              "over any number of (SI, shnum): visible_iff_closed / visible_iff_closed_foolscap, read_returns_written, "
+              "conflict_rejected_unchanged, aborted_leaves_nothing, timed_out_leaves_nothing, disconnect_leaves_no_upload, "
+              "abort_removes_exactly_that_upload (directory level), write_finished_iff_complete / http_patch_closes_only_complete, "
+              "timeout_window / timeout_exactly_30_minutes_after_last_write, and refines_spec / refines_spec_foolscap "
+              "(reachable-state invariants: invariant_holds, reachable_invariants). The model is tied to the code by comparing "
+              "results, _already_written ranges, on-disk container bytes and the directory tree of seeded histories; a fixed "
+              "corpus (one history per known mechanism, seeds C22-a..e) runs first.")
 LEVEL_NOTE = ("Lean kernel + standard axioms; model hand-written, tied by correspondence; lease records are opaque 72-byte "
-              "strings produced by the real serializer; RangeMap is the harness shim.")
-RULE = ("seeded histories (10-60 ops) of allocate/write/close/abort/disconnect/clock-advance/read/list/dump over 3 storage "
-        "indexes and 7 share numbers against a real StorageServer; half of the histories go through the real "
-        "FoolscapStorageServer front end (remote_allocate_buckets with a canary following foolscap's notifyOnDisconnect / "
-        "dontNotifyOnDisconnect semantics, multi-share requests, remote_write/close/abort on FoolscapBucketWriter, lost "
-        "connections), the rest by direct StorageServer/BucketWriter calls; a case is one operation; distinct = distinct "
-        "(history prefix digest, op); non-trivial = every op after the first allocation of the history")
-TRUSTED = ["lean/Tahoe/Storage/Immutable.lean is a hand transcription of storage/immutable.py and the immutable part of storage/server.py",
+              "strings produced by the real serializer; RangeMap is the harness shim; the HTTP route is mirrored by the harness "
+              "(bucket.write then bucket.close on finished=True, as http_server.write_share_data does), not driven through klein; "
+              "the 30*60 s timeout literal is extracted from the BucketWriter code objects and pinned by layout_constants.")
+RULE = ("seeded histories (10-60 ops) of allocate/write/close/abort/disconnect/clock-advance/restart/read/list/dump over 3 storage "
+        "indexes (two sharing a prefix directory) and 7 share numbers against a real StorageServer; half of the histories go "
+        "through the real FoolscapStorageServer front end (remote_allocate_buckets with a canary following foolscap's "
+        "notifyOnDisconnect / dontNotifyOnDisconnect semantics, multi-share requests, remote_write/close/abort on "
+        "FoolscapBucketWriter, lost connections), a quarter upload through the HTTP-PATCH-style route in back-to-front / "
+        "tail-first / middle-out chunk orders, the rest by direct StorageServer/BucketWriter calls; VERIF_CORPUS_ONLY=1 runs "
+        "the fixed corpus only; a case is one operation; distinct = distinct (history prefix digest, op); non-trivial = every "
+        "op after the first allocation of the history")
+TRUSTED = ["lean/Tahoe/Storage/Immutable.lean and ImmDirs.lean are hand transcriptions of storage/immutable.py and the immutable part of "
+           "storage/server.py (incl. FoolscapStorageServer.remote_allocate_buckets / _bucket_writer_closed)",
            "harness/shims/collections_extended (RangeMap stand-in used by BucketWriter._already_written)",
            "lease records are serialised by the real HashedLeaseSerializer (blake2b) and passed to the model as opaque bytes",
            "twisted.internet.task.Clock as the server clock; os.statvfs patched to a simulated disk",
            "harness Canary object standing in for a foolscap RemoteReference (Broker.notifyOnDisconnect / dontNotifyOnDisconnect "
-           "semantics: unknown markers ignored, watchers run on connection loss; run immediately instead of via eventually())"]
+           "semantics: unknown markers ignored, watchers run on connection loss; run immediately instead of via eventually())",
+           "harness restart op: a new StorageServer on the same directory and clock; handles, timers and canary registrations of "
+           "the old process are discarded by the harness",
+           "harness mirror of the HTTP PATCH handler (write, then close when write() answers finished)"]
 ASSUMPTIONS = ["single-threaded server (one reactor): operations on the storage directory do not interleave",
                "no other process modifies the storage directory",
                "os.listdir order and set iteration order are inputs of allocate_buckets (passed to the model)",
-               "blake2b does not collide on the secrets used (renew-secret match = equality of stored hashes)"]
+               "blake2b does not collide on the secrets used (renew-secret match = equality of stored hashes)",
+               "correspondence only: the directory-model server component equals the plain front-end run for clock advances "
+               "(checked at run time by the driver's `!` marker, not proved)"]
 
 # a fixed corpus of past/hand-made histories runs first
 CORPUS = [
